@@ -85,9 +85,48 @@ fn check_json_str<const N: usize, const M: usize>() {
     kani::cover!(b[0] == b'a', "plain_input");
 }
 
+/// A Display that hands its string to the formatter in one piece (no padding logic of `<str as Display>`).
+struct Raw<'a>(&'a str);
+impl fmt::Display for Raw<'_> {
+    fn fmt(&self, f: &mut fmt::Formatter) -> fmt::Result { f.write_str(self.0) }
+}
+
+/// One ASCII byte, direct case analysis of the required output (no decoder loop):
+/// plain bytes are copied, quote and backslash get a backslash, control characters
+/// become one of the RFC 8259 escapes.
 #[kani::proof]
 #[kani::unwind(9)]
-fn c22_json_str_1_byte() { check_json_str::<1, 8>() }
+fn c22_json_str_1_byte() {
+    use std::fmt::Write;
+    let b: [u8; 1] = kani::any();
+    kani::assume(b[0] < 128);
+    let s = unsafe { core::str::from_utf8_unchecked(&b) };
+    let mut sink = Sink::<8> { buf: [0; 8], len: 0 };
+    let r = write!(&mut sink, "{}", json_str(Raw(s)));
+    assert!(r.is_ok(), "json_str failed to write");
+    let c = b[0];
+    let o = &sink.buf;
+    if c == b'"' || c == b'\\' {
+        assert!(sink.len == 2 && o[0] == b'\\' && o[1] == c, "quote / backslash not escaped with a backslash");
+    }
+    else if c < 0x20 {
+        assert!(sink.len >= 2 && o[0] == b'\\', "control character written raw (invalid JSON)");
+        let short = sink.len == 2 && (
+            (o[1] == b'n' && c == b'\n') || (o[1] == b'r' && c == b'\r') || (o[1] == b't' && c == b'\t')
+            || (o[1] == b'b' && c == 8) || (o[1] == b'f' && c == 12)
+        );
+        let long = sink.len == 6 && o[1] == b'u' && o[2] == b'0' && o[3] == b'0'
+            && hex(o[4]).is_some() && hex(o[5]).is_some()
+            && hex(o[4]).unwrap_or(0) * 16 + hex(o[5]).unwrap_or(0) == c;
+        assert!(short || long, "control character escaped with something that is not its JSON escape");
+    }
+    else {
+        assert!(sink.len == 1 && o[0] == c, "plain character not copied verbatim");
+    }
+    kani::cover!(c < 0x20, "control_char_input");
+    kani::cover!(c == b'"', "quote_input");
+    kani::cover!(c == b'a', "plain_input");
+}
 
 #[kani::proof]
 #[kani::unwind(15)]
